@@ -98,6 +98,8 @@ type family struct {
 	variantSeed bool // print grammars with random spelling variants (C10's monitor 1 rides along)
 	batch       int
 	stdout      bool
+	refLimit    int
+	maxDepth    int // drop cases whose derivation nests deeper than this many rule applications (0 = no bound)
 	stateCode   func(cs *gcase) func(int) string
 	noexec      bool
 	// judge is called once per (case, entry) with the reference evaluation and the results by config name.
@@ -210,6 +212,9 @@ func (f *family) runBatch(peg string, cases []*gcase, vs []variant, bno int) {
 		for ei, e := range cs.entries {
 			it := ref.New(cs.g, e.input)
 			it.Limit = 400000
+			if f.refLimit > 0 {
+				it.Limit = f.refLimit
+			}
 			ok, end := it.Parse(e.ruleName(cs.g))
 			refs[ci][ei] = refRes{it, ok, end}
 		}
@@ -220,7 +225,7 @@ func (f *family) runBatch(peg string, cases []*gcase, vs []variant, bno int) {
 	where := map[key]int{}
 	for ci, cs := range cases {
 		for ei, e := range cs.entries {
-			if refs[ci][ei].it.Over {
+			if refs[ci][ei].it.Over || (f.maxDepth > 0 && refs[ci][ei].it.MaxDepth > f.maxDepth) {
 				continue
 			}
 			for cfi, cf := range f.configs {
@@ -241,6 +246,10 @@ func (f *family) runBatch(peg string, cases []*gcase, vs []variant, bno int) {
 			it, ok, end := refs[ci][ei].it, refs[ci][ei].ok, refs[ci][ei].end
 			if it.Over {
 				f.refOver++
+				continue
+			}
+			if f.maxDepth > 0 && it.MaxDepth > f.maxDepth {
+				f.c.run.Count("cases_dropped_nesting_bound", 1)
 				continue
 			}
 			m := map[string]*corpus.Res{}
